@@ -32,7 +32,7 @@ type closeObs struct {
 // readerHold parks the reader for that long after each successful read
 // (slow reader). Returns the observation.
 func runCloseCase(env *Env, closerIsServer bool, writes []int, key uint64, closeDelay time.Duration,
-	readSizes []int, readerGap time.Duration, budget time.Duration) (*closeObs, error) {
+	readSizes []int, readerGap time.Duration, readerStart time.Duration, budget time.Duration) (*closeObs, error) {
 	cm, err := env.NewClient(0, "")
 	if err != nil {
 		return nil, err
@@ -59,6 +59,9 @@ func runCloseCase(env *Env, closerIsServer bool, writes []int, key uint64, close
 		go func() {
 			defer wg.Done()
 			p := &SessPlan{Key: [2]uint64{key, key}}
+			if readerStart > 0 {
+				time.Sleep(readerStart) // a consumer that starts late (back-pressure)
+			}
 			var off int64
 			i := 0
 			timeouts := 0
@@ -218,7 +221,7 @@ func c03Case(c *Ctx) *Result {
 	if smallReads(readSizes) {
 		readSizes = []int{3, 2000}
 	}
-	var readerGap time.Duration
+	var readerGap, readerStart time.Duration
 	patC := genPattern(r, r.Intn(5) == 0)
 	patS := genPattern(r, r.Intn(5) == 0)
 	cfg := EnvCfg{UDP: udp, PatC: patC, PatS: patS, MTUC: pick(r, mtuSet...), MTUS: pick(r, mtuSet...)}
@@ -282,10 +285,52 @@ func c03Case(c *Ctx) *Result {
 		if total > 200000 && readerGap > 10*time.Millisecond {
 			readerGap = 10 * time.Millisecond
 		}
+		readerStart = time.Duration(pick(r, 0, 0, 0, 1500, 3000, 8000)) * time.Millisecond
+		if r.Intn(8) == 0 {
+			// many small writes past a consumer that starts late: fills the
+			// receive queue and the input channel before the close arrives
+			n := 4300 + r.Intn(900)
+			writes = make([]int, n)
+			for i := range writes {
+				writes[i] = 1 + r.Intn(12)
+			}
+			total = 0
+			for _, w := range writes {
+				total += int64(w)
+			}
+			readerStart = time.Duration(pick(r, 2000, 4000)) * time.Millisecond
+			// a slow consumer with a small buffer keeps the pipeline full
+			// until the close request arrives behind the data
+			readSizes = []int{pick(r, 8, 16, 64)}
+			readerGap = time.Duration(pick(r, 0, 1, 1)) * time.Millisecond
+			ck = "all"
+			params["writes"] = fmt.Sprintf("%d small writes (1..12 bytes)", n)
+		}
+		if r.Intn(8) == 1 {
+			// back-pressure that spans Close(): the first segment blocks in
+			// the network write (small pipe, consumer not reading yet), the
+			// second write is accepted into the send queue, then Close.
+			bufMax = 4096
+			readerStart = time.Duration(pick(r, 3000, 8000)) * time.Millisecond
+			writes = []int{5000 + r.Intn(27000), 1 + r.Intn(32768)}
+			if closerIsServer == false && r.Intn(2) == 0 {
+				writes = append([]int{pick(r, 0, 100)}, writes...)
+			}
+			total = 0
+			for _, w := range writes {
+				total += int64(w)
+			}
+			closeDelay = time.Duration(pick(r, 0, 1, 20)) * time.Millisecond
+			readerGap = 0
+			params["writes"] = writes
+			params["close_delay_ms"] = closeDelay.Milliseconds()
+			params["buf"] = bufMax
+		}
+		params["reader_start_ms"] = readerStart.Milliseconds()
 		params["chunk"] = ck
 		params["buf"] = bufMax
 		params["reader_gap_ms"] = readerGap.Milliseconds()
-		faultClass = fmt.Sprintf("tcp/%s/buf%d/gap%d", ck, bufMax, readerGap.Milliseconds())
+		faultClass = fmt.Sprintf("tcp/%s/buf%d/gap%d/start%d/w%d", ck, bufMax, readerGap.Milliseconds(), readerStart.Milliseconds(), len(writes)/1000)
 		env.OnPair = func(p *simnet.StreamPair) {
 			p.SetChunker(simnet.C2S, chunkerFor(ck, c.Seed+int64(c.Idx)))
 			p.SetChunker(simnet.S2C, chunkerFor(ck, c.Seed+int64(c.Idx)+1))
@@ -306,7 +351,7 @@ func c03Case(c *Ctx) *Result {
 	c.Out.Start("C03", fmt.Sprintf("C03-close/%d/%d", c.Seed, c.Idx), c.Seed, params)
 	res := &Result{Params: params}
 	key := splitmix(uint64(c.Seed)*31337 + uint64(c.Idx))
-	obs, err := runCloseCase(env, closerIsServer, writes, key, closeDelay, readSizes, readerGap, 400*time.Second)
+	obs, err := runCloseCase(env, closerIsServer, writes, key, closeDelay, readSizes, readerGap, readerStart, 400*time.Second)
 	if err != nil {
 		res.Verdict, res.Detail = Inconclusive, err.Error()
 		return res
